@@ -99,7 +99,8 @@ structure Chan where
   reg : Bool := true                  -- `_conn is not None` (and `_recv_chan in conn._channels`)
   sendBuf : Nat := 0
   sendWin : Nat := 0
-  recvBuf : Nat := 0
+  recvBuf : Nat := 0                  -- `_recv_buf` / `_recv_buf_len` (one-byte items)
+  recvEofPending : Bool := false      -- `_recv_eof_pending`: the peer's CLOSE overtook its still pending EOF
   recvWin : Nat := 1
   initWin : Nat := 1
   paused : Paused := .starting
@@ -217,7 +218,11 @@ def flushEofPart (c : Chan) : R :=
 
 /-- `_flush_recv_buf`, last part (channel.py:361-363): a pending close completes once the buffer is empty -/
 def flushClosePart (c : Chan) : R :=
-  if c.recvBuf = 0 ∧ c.recvSt = .closePending then R.ok { c with recvSt := .closed } [.sched .clean]
+  if c.recvBuf = 0 ∧ c.recvSt = .closePending then
+    -- `if self._recv_eof_pending:` the EOF that was still waiting behind buffered data is delivered first
+    -- (its return value is not looked at: the send side is closed already)
+    let tr := if c.recvEofPending = true ∧ c.session = true then c.trace ++ [.eof] else c.trace
+    R.ok { c with recvSt := .closed, recvEofPending := false, trace := tr } [.sched .clean]
   else R.ok c
 
 /-- `_flush_recv_buf` (channel.py:337); the harness sessions never pause from inside `data_received` -/
@@ -249,7 +254,7 @@ def processConnectionClose (c : Chan) (e : Exc) : R :=
 /-- `_process_data` (channel.py:571), one byte -/
 def processData (c : Chan) : R :=
   if c.recvSt ≠ .opn then R.fail c .proto
-  else if c.recvWin < 1 then R.fail c .proto          -- 'Window exceeded'
+  else if c.recvWin - c.recvBuf < 1 then R.fail c .proto   -- 'Window exceeded': `1 > _recv_window - _recv_buf_len`
   else acceptData c
 
 /-- `_process_eof` (channel.py:616) -/
@@ -262,7 +267,8 @@ def recvLive (s : St) : Bool := s = .opn ∨ s = .eofPending ∨ s = .eof
 /-- `_process_close` (channel.py:630) -/
 def processClose (c : Chan) : R :=
   if recvLive c.recvSt = false then R.fail c .proto
-  else (closeSend c).andThen fun c => flushRecvBuf { c with recvSt := .closePending }
+  else (closeSend c).andThen fun c =>
+    flushRecvBuf { c with recvEofPending := decide (c.recvSt = .eofPending), recvSt := .closePending }
 
 /-- `_process_window_adjust` (channel.py:554) -/
 def processAdjust (c : Chan) (n : Nat) : R :=
